@@ -99,6 +99,9 @@ type Proc struct {
 }
 
 type Result struct {
+	// Stalled: the label of the process that could not be stepped (it waited for a held
+	// process); the schedule was abandoned there and everything ran to completion
+	Stalled string
 	Inv, Ret int64
 	Obs      any
 	Sites    []string
@@ -144,6 +147,11 @@ func (c *Controller) RunSchedule(procs []*Proc, schedule []string, stepTimeout t
 		}
 	}
 	var firstErr error
+	stalled := ""
+	stall := stepTimeout
+	if stall > 3*time.Second {
+		stall = 3 * time.Second
+	}
 	wait := func(p *Proc) {
 		c.mu.Lock()
 		ch := c.arr[p.Label]
@@ -153,9 +161,12 @@ func (c *Controller) RunSchedule(procs []*Proc, schedule []string, stepTimeout t
 			p.held = &a
 			p.Sites = append(p.Sites, a.site)
 		case <-p.done:
-		case <-time.After(stepTimeout):
-			if firstErr == nil {
-				firstErr = fmt.Errorf("process %s: no stop site or completion within %v (sites so far %v)", p.Label, stepTimeout, p.Sites)
+		case <-time.After(stall):
+			// the process neither reached a stop nor finished although it was released:
+			// it waits for something a HELD process owns (the schedule cannot be forced
+			// on this code). Give up the schedule, let everything run, and report it.
+			if stalled == "" {
+				stalled = p.Label
 			}
 		}
 	}
@@ -172,7 +183,7 @@ func (c *Controller) RunSchedule(procs []*Proc, schedule []string, stepTimeout t
 		if p == nil {
 			return nil, fmt.Errorf("schedule names unknown process %q", lab)
 		}
-		if firstErr != nil {
+		if firstErr != nil || stalled != "" {
 			break
 		}
 		if !p.begun {
@@ -204,9 +215,14 @@ func (c *Controller) RunSchedule(procs []*Proc, schedule []string, stepTimeout t
 			}(p)
 		}
 	}
-	deadline := time.After(stepTimeout * 2)
-	for _, p := range procs {
-		for !isDone(p) {
+	deadline := time.Now().Add(stepTimeout * 2)
+	for {
+		alldone := true
+		for _, p := range procs {
+			if isDone(p) {
+				continue
+			}
+			alldone = false
 			release(p)
 			c.mu.Lock()
 			ch := c.arr[p.Label]
@@ -216,16 +232,19 @@ func (c *Controller) RunSchedule(procs []*Proc, schedule []string, stepTimeout t
 				p.held = &a
 				p.Sites = append(p.Sites, a.site)
 			case <-p.done:
-			case <-deadline:
-				if firstErr == nil {
-					firstErr = fmt.Errorf("process %s did not finish", p.Label)
-				}
-				release(p)
-				goto out
+			case <-time.After(20 * time.Millisecond):
 			}
 		}
+		if alldone {
+			break
+		}
+		if time.Now().After(deadline) {
+			if firstErr == nil {
+				firstErr = fmt.Errorf("processes did not finish within %v", stepTimeout*2)
+			}
+			break
+		}
 	}
-out:
 	if firstErr != nil {
 		// drain: release anything still held so the gateway is not wedged
 		for _, p := range procs {
@@ -235,7 +254,7 @@ out:
 	}
 	out := map[string]Result{}
 	for _, p := range procs {
-		out[p.Label] = Result{Inv: p.inv, Ret: p.ret, Obs: p.res, Sites: p.Sites}
+		out[p.Label] = Result{Inv: p.inv, Ret: p.ret, Obs: p.res, Sites: p.Sites, Stalled: stalled}
 	}
 	return out, nil
 }
